@@ -20,6 +20,7 @@ fn gen(seed: u64, idx: u64, _tier: Tier) -> Plan {
     s.workers = [1i64, 2, 4, 8, 16][(idx % 5) as usize];
     s.batch_size = *rng.pick(&[1i64, 4, 64, 64]);
     s.source = if rng.chance(1, 2) { ConfigSource::File } else { ConfigSource::Env };
+    file_layout(&mut rng, &mut s);
     if rng.chance(1, 3) {
         s.client_stats = Some("on".into());
         s.persist_dir = Some("/tmp".into());
